@@ -88,7 +88,7 @@ impl Tok {
     }
     /// "word-like" in the lister's sense: a blank is shown between two adjacent ones.
     pub fn wordlike(&self) -> bool {
-        matches!(self.kind, TK::Kw | TK::Ident | TK::Num | TK::Str | TK::LineRef) && self.s != "'"
+        matches!(self.kind, TK::Kw | TK::Ident | TK::Num | TK::Str | TK::LineRef)
     }
 }
 
